@@ -17,10 +17,13 @@ META = {
         "LinearElasticPlaneStress/PlaneStrain, LinearElasticLargeStrain, CompositeMaterial, VolumeChange/AreaChange/LineChange, out= variants",
         "mixed: ThreeFieldVariation and NearlyIncompressible around an ABSTRACT inner material (uninterpreted P(F), A(F) with A = dP/dF major-symmetric): all six blocks and the transposed mixed blocks",
         "history models: OgdenRoxburgh on both sides of the max-history switch; small-strain plasticity (MaterialStrain) elastic and plastic branch (tolerance 1e-9: sqrt(2/3) is a float)",
-        "tensortrax models at the C level + wrapper chain rule: see cases",
+        "tensortrax: felupe's Hyperelastic wrapper (C = F^T F, P = F 2dW/dC, A = 4 F F : d2W + 1 (x) 2dW/dC) against the chain rule with an ABSTRACT energy W(C) (covers every model behind the wrapper); "
+        "models neo_hooke, saint_venant_kirchhoff, saint_venant_kirchhoff_orthotropic (+ blatz_ko thorough) at the C level exactly as the wrapper calls tensortrax (sym=True)",
     ],
     "outside": [
         "models through eigh/eigvalsh/expm (ogden, storakers, extended_tube, SVK k != 2, morph*), micro-sphere models, jax's AD (trusted)",
+        "tensortrax models mooney_rivlin, yeoh, third_order_deformation, arruda_boyce, anssari_benam_bucchi, lopez_pamies, alexander, van_der_waals, finite_strain_viscoelastic, tensortrax ogden_roxburgh: "
+        "attempted at the C level, not decided by z3/cvc5 within 15-40 min each (measured) - not claimed",
         "the switching surfaces themselves (yield surface, W == Wmax)",
         "IEEE rounding",
     ],
@@ -467,9 +470,13 @@ def cases(tier):
     out.append(("small_strain", case_small_strain, {"model": "linear_elastic", "branch": "elastic"}))
     out.append(("small_strain", case_small_strain, {"model": "plastic", "branch": "both", "max_paths": 8}))
     out.append(("tt_wrapper", case_tt_wrapper, {}))
-    tt = ["neo_hooke", "mooney_rivlin", "yeoh", "blatz_ko", "saint_venant_kirchhoff", "isochoric_svk"]
+    # measured: the isochoric models beyond neo_hooke (mooney_rivlin, yeoh, third_order_deformation, arruda_boyce,
+    # anssari_benam_bucchi, lopez_pamies, alexander, van_der_waals, isochoric split of SVK) are not decided by z3/cvc5
+    # within 15-40 min per model at the C level: they are outside the claim (their derivatives come from tensortrax's
+    # AD; felupe's own wrapper algebra is proved model-independently by tt_wrapper)
+    tt = ["neo_hooke", "saint_venant_kirchhoff", "saint_venant_kirchhoff_orthotropic"]
     if tier == "thorough":
-        tt += ["third_order_deformation", "arruda_boyce", "anssari_benam_bucchi", "saint_venant_kirchhoff_orthotropic", "lopez_pamies", "alexander", "van_der_waals"]
+        tt += ["blatz_ko"]
     for mname in tt:
         out.append(("tt_model", case_tt_model, {"model": mname}))
     return out
